@@ -38,7 +38,8 @@ def case(task):
     msgs = []
     out = {}
     for refine in (False, True):
-        cfg = dict(N=N, box=bx, r=2.0, eps=0.01, itersLimit=lim, refine=refine)
+        cfg = dict(N=N, box=bx, r=2.0, eps=0.01, itersLimit=lim, refine=refine, spell=task.get("spell"),
+                   holder=task.get("holder"))
         run = tree.make_run(cfg, lambda k, y: f(y))
         try:
             sol = run.solve()
@@ -181,6 +182,11 @@ def run(ctx):
             for bx in boxes:
                 for lim in ((60, 200) if th else (200,)):
                     tasks.append(dict(N=N, box=bx, kind=kind, par=par, limit=lim))
+    # the same box spelled as tuples / lists / read-only arrays, and a Problem that returns a new value holder
+    for N in (1, 2, 3):
+        for kind, par in lattice(N, th):
+            for extra in (dict(spell="tuple"), dict(spell="list"), dict(spell="readonly"), dict(holder="fresh"), dict(holder="zerod")):
+                tasks.append(dict(N=N, box="B1" if N != 2 else "B2", kind=kind, par=par, limit=60, **extra))
     htasks = []
     for N in (1, 2):
         for (a, b) in ((0.12, 0.83), (0.83, 0.12), (0.4, 0.9), ("edge", 0.6)):
